@@ -202,3 +202,19 @@ PROPS["C07"] = {
     "outside": "records (Map-for-record, missing nullable fields), arrays/maps of unions, decimals; the container writer and single-object writer paths (they call the same validate_internal + encode_internal pair); schemas from the parser",
     "assumptions": ["canonical representation = reference encoding (harness/src/spec.rs) of the value validation matched it against"],
 }
+
+C08_FUNCS = ["types::Value::resolve_internal", "types::Value::resolve_int", "types::Value::resolve_long", "types::Value::resolve_float", "types::Value::resolve_double", "types::Value::resolve_bytes", "types::Value::resolve_string", "types::Value::validate_internal"]
+PROPS["C08"] = {
+    "harnesses": [
+        H("c08::from_int", functions=C08_FUNCS, bounds="writer int (all i32) read as int/long/float/double/bytes/string"),
+        H("c08::from_long", functions=C08_FUNCS, bounds="writer long (all i64) read as long/float/double/bytes/string"),
+        H("c08::from_float", functions=C08_FUNCS, bounds="writer float (all bit patterns) read as all six leaf kinds"),
+        H("c08::from_double", functions=C08_FUNCS, bounds="writer double (all bit patterns) read as int/long/double/bytes/string"),
+        H("c08::from_bytes", functions=C08_FUNCS, bounds="writer bytes (all payloads <= 2 bytes) read as all six leaf kinds (bytes->string needs well-formed UTF-8)"),
+        H("c08::from_string", functions=C08_FUNCS, bounds="writer string (<= 2 bytes) read as all six leaf kinds"),
+        H("c08::finding_long_to_int", functions=C08_FUNCS, bounds="writer long read as int, all i64", expect_fail=True),
+        H("c08::finding_double_to_float", functions=C08_FUNCS, bounds="writer double read as float, all f64", expect_fail=True),
+    ],
+    "outside": "record evolution (field matching by name/alias, defaults from JSON), enum symbol mapping and defaults, union branch selection, array/map item promotion, logical types, idempotence of resolve: only the leaf promotion matrix is decided. Strings/bytes longer than 2 bytes (so the textual NaN/INF float forms are outside).",
+    "assumptions": ["the promotion table in the harness (spec_resolve) is transcribed from the Avro 1.11 specification, section Schema Resolution"],
+}
